@@ -1,12 +1,11 @@
-"""C03 - optimal-completion targets are exactly the distance-preserving next tokens.
-
-Bounded part (engine B): contracts/C03_rt.py. The deductive obligations of DESIGN.md section 3 (C03.mask.row_minima,
-C03.loss.formula) are added here when they exist.
-"""
-from contracts import C03_rt
+"""C03 - optimal-completion targets are exactly the distance-preserving next tokens."""
+from contracts import C03_rt, C03_vc
+from vf.pyvc import api
 
 CHECKERS = dict(C03_rt.CHECKERS)
 
 
 def run(ctx):
+    api.run_vcs(ctx, C03_vc.vcs(ctx), {"C03.S.mask_row_minima": "real _string_matching(return_mask=True) source: mask[j,r,n] <=> r < ref_len and prefix j exists and D(r,j) is minimal over r' <= ref_len, for all contents/costs/eos"},
+                bounded="shapes R in 1..%d, H in 0..%d (N=2 when R+H<=2 else 1), flag grid; ALL token values, eos values, positive real cost triples" % ((2, 2) if ctx.quick else (3, 3)))
     C03_rt.run_bounded(ctx)
